@@ -43,6 +43,7 @@ type op struct {
 	k          key
 	v          int64
 	n          int
+	rel        bool // SM only: n is an offset from the target's Size() at the moment of the call (resolved when executed)
 	asc        bool
 }
 
@@ -77,9 +78,9 @@ var types = []*tdesc{
 	{name: "IntIntLinkedMap", kkind: 'i', vkind: 'i', ops: cat(baseOps, addOps, []string{"AN", "CV"}), mk: newIntIntLinkedMap},
 	{name: "IntFloatLinkedMap", kkind: 'i', vkind: 'f', ops: cat(baseOps, addOps, []string{"CV"}), mk: newIntFloatLinkedMap},
 	{name: "LongFloatLinkedMap", kkind: 'l', vkind: 'f', ops: cat(baseOps, addOps, []string{"CV"}), mk: newLongFloatLinkedMap},
-	{name: "LongLongLinkedMap", kkind: 'l', vkind: 'l', hasCtor: true, ops: cat(baseOps, addOps, []string{"CV"}), mk: newLongLongLinkedMap},
-	{name: "StringIntLinkedMap", kkind: 's', vkind: 'i', ops: cat(baseOps, addOps, []string{"CV"}), mk: newStringIntLinkedMap},
-	{name: "StringLongLinkedMap", kkind: 's', vkind: 'l', ops: cat(baseOps, addOps, []string{"CV"}), mk: newStringLongLinkedMap},
+	{name: "LongLongLinkedMap", kkind: 'l', vkind: 'l', hasCtor: true, ops: cat(baseOps, addOps, []string{"CV", "SN"}), mk: newLongLongLinkedMap},
+	{name: "StringIntLinkedMap", kkind: 's', vkind: 'i', ops: cat(baseOps, addOps, []string{"CV", "SN"}), mk: newStringIntLinkedMap},
+	{name: "StringLongLinkedMap", kkind: 's', vkind: 'l', ops: cat(baseOps, addOps, []string{"CV", "SN"}), mk: newStringLongLinkedMap},
 	{name: "LinkedSet", kkind: 'o', vkind: 'u', ops: setOps, mk: newLinkedSet},
 	{name: "IntLinkedSet", kkind: 'i', vkind: 'u', ops: setOps, mk: newIntLinkedSet},
 	{name: "StringLinkedSet", kkind: 's', vkind: 'u', ops: setOps, mk: newStringLinkedSet},
@@ -148,6 +149,8 @@ func (t *tdesc) method(o op) string {
 		return "IsFull"
 	case "SM":
 		return "SetMax"
+	case "SN":
+		return "SetNullValue"
 	case "SO":
 		return "Sort"
 	case "TS":
@@ -183,7 +186,7 @@ func (t *tdesc) line0(o op) string {
 		return fmt.Sprintf("TOF %d", o.src)
 	case "KAW", "GKS":
 		return "KS"
-	case "EO", "TS":
+	case "EO", "TS", "SN": // SN: SetNullValue only changes how "absent" is shown; the model sees a Size query
 		return "SZ"
 	case "ED":
 		return "ES"
@@ -254,7 +257,7 @@ func parseLine(t *tdesc, l string) (op, bool) {
 			return o, false
 		}
 		o.k = pk(w[1])
-	case "CV":
+	case "CV", "SN":
 		o.v, _ = strconv.ParseInt(w[1], 10, 64)
 	case "SM":
 		o.n, _ = strconv.Atoi(w[1])
@@ -266,7 +269,7 @@ func parseLine(t *tdesc, l string) (op, bool) {
 
 func mutating(code string) bool {
 	switch code {
-	case "P", "A", "AN", "GL", "R", "RF", "RL", "C", "SO", "TOF", "KAW", "GKS":
+	case "P", "A", "AN", "GL", "R", "RF", "RL", "C", "SO", "SM", "TOF", "KAW", "GKS":
 		return true // (KAW / GKS do not mutate; they are followed by a dump because the caller modifies the returned slice / set)
 	}
 	return false
@@ -305,7 +308,10 @@ func (t *tdesc) newLine(c ctor) string {
 
 // expect converts the driver's answer into the token the implementation shows for the same
 // abstract result (absent-value sentinels: nil/""/0/NONE; sets return the key itself).
-func (t *tdesc) expect(o op, model string, prev []pairS) string {
+// none: the instance's current NONE (SetNullValue); as the code has it, Put/Add/Get/Remove answer NONE for an
+// absent key; on an empty map GetFirstValue/GetLastValue/RemoveFirst/RemoveLast answer NONE in the String maps,
+// but LongLongLinkedMap shows the header's zero value / the literal 0 whatever NONE is.
+func (t *tdesc) expect(o op, model string, prev []pairS, none string) string {
 	noneKey := map[byte]string{'i': "0", 'l': "0", 's': "~", 'o': "-"}[t.kkind]
 	switch o.code {
 	case "P", "A", "AN", "G", "GL", "FV", "LV", "R", "RF", "RL":
@@ -331,7 +337,13 @@ func (t *tdesc) expect(o op, model string, prev []pairS) string {
 			return "K:?"
 		default:
 			if model == "-" {
-				return "0"
+				switch o.code {
+				case "FV", "LV", "RF", "RL":
+					if t.name == "LongLongLinkedMap" {
+						return "0"
+					}
+				}
+				return none
 			}
 			return model
 		}
@@ -386,6 +398,8 @@ func (t *tdesc) replayLine(o op) string {
 	switch o.code {
 	case "KAW", "GKS", "EO", "ED", "TS":
 		return fmt.Sprintf("@%d %s", o.t, o.code)
+	case "SN":
+		return fmt.Sprintf("@%d SN %d", o.t, o.v)
 	}
 	return t.line(o)
 }
@@ -429,6 +443,10 @@ func runImpl(t *tdesc, cs []ctor, ops []op, dumpEvery int) *histRes {
 				}
 				if o.src >= len(ms) {
 					o.src = 0
+				}
+				if o.code == "SM" && o.rel { // size-1 / size / size+1 of the container as it is now
+					sz, _ := strconv.Atoi(ms[o.t].exec(op{code: "SZ"}))
+					o.n, o.rel = sz+o.n, false
 				}
 				out := execOp(ms, o)
 				st := stepRes{line: t.line(o), rl: t.replayLine(o), o: o, out: out}
@@ -568,6 +586,10 @@ func compare1(h *histRes, ans []string, side func(*verdict)) *verdict {
 		}
 	}
 	prevs := make([][]pairS, len(h.cs)) // last dumped entries per instance (nil: unknown)
+	nones := make([]string, len(h.cs))  // current NONE per instance
+	for i := range nones {
+		nones[i] = "0"
+	}
 	j := len(h.cs)
 	for i, s := range h.steps {
 		model := ans[j]
@@ -576,7 +598,10 @@ func compare1(h *histRes, ans []string, side func(*verdict)) *verdict {
 			return &verdict{key: t.name + "." + t.method(s.o) + ":model", summary: "Lean Spec and CodeModel disagree (theorem C09.refine_step would be violated): " + model,
 				rc: mkReplay(h, i, model, s.out, "")}
 		}
-		want := t.expect(s.o, model, prevs[s.o.t])
+		want := t.expect(s.o, model, prevs[s.o.t], nones[s.o.t])
+		if s.o.code == "SN" {
+			nones[s.o.t] = strconv.FormatInt(s.o.v, 10)
+		}
 		if want == "K:?" && strings.HasPrefix(s.out, "K:") {
 			want = s.out // the model's state was not dumped before this op (long history): only present/absent is compared
 		}
@@ -815,7 +840,7 @@ func genVal(t *tdesc, r *vh.Rng) int64 {
 }
 
 var weights = map[string]int{"TS": 2, "TOF": 5, "KAW": 2, "GKS": 2, "EOB": 3, "P:L": 18, "P:FL": 8, "P:FF": 8, "A:L": 5, "A:FL": 3, "A:FF": 3, "AN": 3, "G": 7, "GL": 5, "CK": 5, "CV": 3,
-	"FK": 2, "LK": 2, "FV": 2, "LV": 2, "R": 9, "RF": 4, "RL": 4, "C": 1, "SZ": 2, "IE": 1, "IF": 2, "SM": 3, "SO": 2}
+	"FK": 2, "LK": 2, "FV": 2, "LV": 2, "R": 9, "RF": 4, "RL": 4, "C": 1, "SZ": 2, "IE": 1, "IF": 2, "SM": 3, "SN": 2, "SO": 2}
 
 // baseOnly: the single-object operations among the available ones
 func baseOnly(avail []string) []string {
@@ -841,6 +866,7 @@ func genOps(t *tdesc, r *vh.Rng, avail []string, n int, nInst int) []op {
 		total += weights[a]
 	}
 	var vals []int64
+	putK := make([][]key, nInst) // keys put so far, per instance
 	ops := make([]op, 0, n)
 	for len(ops) < n {
 		x := r.Intn(total)
@@ -891,11 +917,125 @@ func genOps(t *tdesc, r *vh.Rng, avail []string, n int, nInst int) []op {
 				o.v = 0 // ContainsValue(nil) panics on purpose ("Value is Nil")
 			}
 		case "SM":
-			o.n = r.PickInt([]int{0, 1, 2, 3, 7, 7, 3, 2, -1})
+			// a configuration call at any point of a history: no bound (0, negative), tiny bounds, bounds around the
+			// current size, and bounds above the table length of the default capacity (101 * 0.75 = 75.75)
+			switch x := r.Intn(16); {
+			case x < 3:
+				o.n, o.rel = x-1, true // size-1, size, size+1
+			default:
+				o.n = r.PickInt([]int{0, -1, -1000, 1, 2, 3, 7, 75, 76, 77, 200, 1000, 100000})
+			}
+			ops = append(ops, o)
+			// … followed by lookups / removals / updates of keys inserted BEFORE the call
+			if ks := putK[o.t]; len(ks) > 0 {
+				for i, m := 0, 2+r.Intn(5); i < m; i++ {
+					if c, ok := pickAvail(r, avail, []string{"G", "CK", "CK", "R", "P:L", "P:FF", "A:L", "GL", "G"}); ok {
+						b := op{code: c, t: o.t, k: ks[r.Intn(len(ks))], v: genVal(t, r)}
+						if j := strings.IndexByte(c, ':'); j >= 0 {
+							b.code, b.mode = c[:j], c[j+1:]
+						}
+						ops = append(ops, b)
+					}
+				}
+				ops = append(ops, op{code: "SZ", t: o.t})
+			}
+			continue
+		case "SN":
+			o.v = int64(r.PickInt([]int{0, -1, 7, 5, 1, 100}))
+			if len(vals) > 0 && r.Chance(30) && vals[len(vals)-1] != nilV {
+				o.v = vals[r.Intn(len(vals))] // a NONE equal to a stored value
+				if o.v == nilV {
+					o.v = 0
+				}
+			}
 		case "SO":
 			o.asc = r.Bool()
 		}
+		if o.code == "P" || o.code == "A" || o.code == "AN" {
+			putK[o.t] = append(putK[o.t], o.k)
+		}
 		ops = append(ops, o)
+	}
+	return ops
+}
+
+func pickAvail(r *vh.Rng, avail, want []string) (string, bool) {
+	for tries := 0; tries < 8; tries++ {
+		w := want[r.Intn(len(want))]
+		for _, a := range avail {
+			if a == w {
+				return w, true
+			}
+		}
+	}
+	return "", false
+}
+
+// smValues: the bounds every configuration history goes through (relative ones are resolved against Size())
+var smValues = []op{{n: 0}, {n: -1}, {n: -1000}, {n: 1}, {n: -1, rel: true}, {n: 0, rel: true}, {n: 1, rel: true},
+	{n: 75}, {n: 76}, {n: 77}, {n: 200}, {n: 1000}}
+
+// genConfig: a populated container (pop distinct keys), ONE configuration call, then every key inserted before
+// the call is looked up, some are removed, some updated, some fresh keys are inserted (eviction under the new
+// bound), and the whole is enumerated.  capRel != 0: the bound is taken around the constructor's table length.
+func genConfig(t *tdesc, r *vh.Rng, avail map[string]bool, pop int, sm op) []op {
+	var ops []op
+	var ks []key
+	seen := map[string]bool{}
+	pool := keyPool(t, r)
+	for i := 0; len(ks) < pop; i++ {
+		var k key
+		if i < len(pool) && r.Chance(50) {
+			k = pool[i]
+		} else if t.kkind == 's' {
+			k = key{s: "c" + strconv.Itoa(i*7919%100003)}
+		} else {
+			k = key{i: int64(i)*int64(r.PickInt([]int{1, 101, -203, 8344921})) - int64(r.Intn(3))}
+		}
+		if t.kkind == 'i' {
+			k.i = int64(int32(k.i))
+		}
+		if tok := t.keyTok(k); seen[tok] || (t.kkind == 's' && k.s == "") {
+			continue
+		} else {
+			seen[tok] = true
+		}
+		ks = append(ks, k)
+		ops = append(ops, op{code: "P", mode: []string{"L", "L", "FL", "FF"}[r.Intn(4)], k: k, v: genVal(t, r)})
+	}
+	sm.code = "SM"
+	ops = append(ops, sm, op{code: "SZ"}, op{code: "IF"})
+	emit := func(code, mode string, k key) {
+		if avail[code] {
+			ops = append(ops, op{code: code, mode: mode, k: k, v: genVal(t, r)})
+		}
+	}
+	for _, k := range ks {
+		emit([]string{"G", "CK", "G", "GL"}[r.Intn(4)], "", k)
+	}
+	for _, k := range ks {
+		switch r.Intn(6) {
+		case 0:
+			emit("R", "", k)
+		case 1:
+			emit("P", []string{"L", "FL", "FF"}[r.Intn(3)], k)
+		case 2:
+			emit("A", []string{"L", "FL", "FF"}[r.Intn(3)], k)
+		case 3:
+			emit("CK", "", k)
+		}
+	}
+	ops = append(ops, op{code: "SZ"})
+	for i, m := 0, 1+r.Intn(4); i < m; i++ { // fresh keys under the new bound
+		k := key{s: "f" + strconv.Itoa(i), i: int64(1<<20 + i)}
+		emit("P", []string{"L", "FF"}[r.Intn(2)], k)
+	}
+	if avail["SO"] && r.Chance(30) {
+		ops = append(ops, op{code: "SO", asc: r.Bool()})
+	}
+	ops = append(ops, op{code: "SZ"}, op{code: "FK"}, op{code: "LK"})
+	if avail["TS"] {
+		ops = append(ops, op{code: "TS"})
 	}
 	return ops
 }
@@ -1197,6 +1337,26 @@ func main() {
 			}
 			cs := genCtors(r)
 			jobs = append(jobs, job{cs, genOps(t, r, availX, n, len(cs)), de})
+		}
+		if availSet["SM"] { // configuration calls on populated containers (every bound of smValues, small and large populations)
+			pops := [][]int{{1, 2, 5}, {40, 60, 74}, {76, 90, 120}}
+			for _, sm := range smValues {
+				for pi, ps := range pops {
+					if !env.Thorough && pi == 1 && (sm.n < 70 && !sm.rel) {
+						continue // quick tier: the middle population only with the relative and the large bounds
+					}
+					r := rng.Fork()
+					c := genCtor(t, r, po.capOK)
+					if r.Chance(50) {
+						c = ctor{def: true, hmode: c.hmode}
+					}
+					if t.kkind != 'o' {
+						c.hmode = 0
+					}
+					jobs = append(jobs, job{[]ctor{c}, genConfig(t, r, availSet, r.PickInt(ps), sm), 8})
+					rep.Count("config-history")
+				}
+			}
 		}
 		for i := 0; i < growthPer; i++ {
 			r := rng.Fork()
